@@ -26,7 +26,27 @@ class Check(common.Check):
                 'over 2 tasks x 2 prios. Non-trivial: history contains a re-add or a remove of a live task '
                 'and at least one pop/peek/iter that returns an item; distinct by op list')
 
+    def gen_churn(self, rng):
+        """many re-insertions of still-pending items (tombstones pile up in the heap), then everything
+        is popped: routines paused/resumed or re-played before their wake-up, signalled conditions ..."""
+        nt, npr = rng.randint(4, 45), rng.randint(2, 9)
+        ops = [f'add {rng.randrange(npr)} {t}' for t in range(nt)]
+        for _ in range(rng.randint(35, 140)):
+            r = rng.random()
+            if r < 0.86:
+                ops.append(f'add {rng.randrange(npr)} {rng.randrange(nt)}')
+            elif r < 0.93:
+                ops.append(f'remove {rng.randrange(nt)}')
+            else:
+                ops.append(rng.choice(['peekS', 'peekL', 'empty', 'pop']))
+        ops.append('iter')
+        ops += ['pop'] * (nt + 1)
+        ops.append('empty')
+        return ops
+
     def gen_one(self, rng):
+        if rng.random() < 0.08:
+            return self.gen_churn(rng)
         nt, npr = rng.randint(1, 12), rng.randint(1, 6)
         n = rng.choice([rng.randint(1, 12), rng.randint(10, 60), rng.randint(50, 200)])
         ops = []
